@@ -9,11 +9,11 @@ PROP = {'title': 'Grid positions, offsets and ranges form an exact row-major bij
                'accumulation of offset are universally quantified over sizes, so the complete small-size space (including zero extents, '
                '1-wide dimensions, empty and inverted sub-ranges in 3-D) is what the claim needs and what fixed-size tests do not give.',
  'level_note': 'bounded: N <= 3; quick tier = the stated bound (extents 0..4, min/sup components 0..5), thorough tier extents 0..6 and '
-               'min/sup 0..7; size types '
+               'min/sup 0..7, plus (both tiers) a boundary lattice of large extents and coordinates (harness/C08_scale.cpp); size types '
                'unsigned, unsigned char and std::size_t for the free functions, std::size_t for grid::object; oracle = nested loops over '
                'plain integers in harness/C08_common.hpp; sanitizer aborts are attributed to the announced case',
  'binaries': [{'name': 'C08',
-               'sources': ['harness/C08.cpp', 'harness/C08_pos.cpp', 'harness/C08_grid.cpp', 'harness/C08_ops.cpp'],
+               'sources': ['harness/C08.cpp', 'harness/C08_pos.cpp', 'harness/C08_grid.cpp', 'harness/C08_ops.cpp', 'harness/C08_scale.cpp'],
                'libs': [],
                'flavour': 'asan'}],
  'deadline': {'quick': 240, 'thorough': 1200},
@@ -24,7 +24,11 @@ PROP = {'title': 'Grid positions, offsets and ranges form an exact row-major bij
          'and non-const) for every size x every (min, sup) with components in 0..extent+1 whose range is empty or lies inside the grid; resize for every (old size, new size) '
          'pair with lvalue and rvalue (move-only cells) source; map, fill, object constructors per size; apply for every pair (and, '
          'smaller extents, triple) of sizes, also with an rvalue first grid; clamped_min / clamped_sup / clamped_sup_signed over {type min, min+1, -3..6, max-1, max} per '
-         'component x sizes {0..4, max}. Oracle = explicit loops in storage order (x fastest). A case is non-trivial when at least two '
+         'component x sizes {0..4, max}. Scale lattice (C08_scale.cpp): extents/coordinates from {0..3, 2^k-1, 2^k, 2^k+1 for k = 4, 8, 16, 31, 32, 63, max-1, max} of '
+         'each size type: contents, pos_range::size, range_size, range_dim, min_less_sup, offset of the last position and of the unit steps and in_range_dim around each axis end are '
+         'compared with 128-bit arithmetic whenever every partial product is representable; pos_range/next_position are iterated on windows of 0..2 positions per axis placed at '
+         'every lattice coordinate. grid::object copy/move construction and assignment and swap for all pairs of sizes 0..3 x 0..3, including an object and itself through a second '
+         'name (after self-assignment size(), content() and the stored cells must still agree; moved-from sources are not inspected). Oracle = explicit loops in storage order (x fastest). A case is non-trivial when at least two '
          'positions are visited (a step or carry happens) or, for N > 1, the range is empty because of exactly one component; for '
          'offset when the position is not the origin; for in_range/at_optional when the position is on or beyond the last in-range '
          'index of some axis; for resize when kept and new cells are mixed; for apply when the result is non-empty or the sizes differ '
